@@ -1,6 +1,7 @@
 (* Properties_C16_conc.v - property C16 (one context can be shared by concurrent readers), PARTIAL:
    theorem statements only. Model: Sched.v (the locking logic of dict.c, log.c, lyb.c and of the lazily cached
-   canonical strings of plugins_types/*.c as a state machine of atomic steps; a schedule is a list of thread ids);
+   canonical strings of plugins_types/*.c, the process-wide / thread-local logging options, the reference count of a
+   shared compiled type and scratch buffers, as a state machine of atomic steps; a schedule is a list of thread ids);
    proofs: SchedP.v.
    What no theorem here can say: anything about the C11 memory model, about pthread mutexes beyond mutual exclusion,
    about the heap. The theorems are about EVERY schedule of the model; that the C code takes and drops the locks where
